@@ -260,6 +260,15 @@ def explore_all(pool, jobs, deadline, nproc):
     return res
 
 
+def _stdx_status():
+    """result of the last run of stdx_selftest.py (differential test of the std models), if any"""
+    try:
+        with open(os.path.join(ROOT, '.work', 'stdx.json')) as f:
+            return json.load(f)
+    except (OSError, ValueError):
+        return None
+
+
 def scenario_path(s):
     # "c02_window" -> "c02::c02_window"
     return s.split('_')[0] + '::' + s
@@ -528,6 +537,7 @@ def run_check(prop, spec, tier, seed):
             'functions_encoded_from_mir': fn_names, 'n_functions_encoded': len(fn_names), 'modelled_externals': ext_names,
             'bounds': spec.get('bounds', ''), 'witnesses_reached': {k2: sorted(v2) for k2, v2 in covers.items()},
             'selftest_runs': len(st_native), 'selftest_agree': st_ok, 'selftest_divergences': st_bad[:5],
+            'std_model_exerciser': _stdx_status(),
             'cvc5_rechecked': ncv, 'cvc5_disagreements': dis,
             'counterexamples': replays[:10], 'inconclusive': inconclusive[:10],
             'known_findings_hit': [kf['id'] for kf, _ in known_hits],
